@@ -1,6 +1,7 @@
 """Apply the seams: rebind module attributes of pynetdicom and socketserver to
 the simulated primitives.  Nothing in /repo is edited; the rebinding happens in
 the simulation worker process only."""
+import os
 import sys
 import types
 
@@ -8,6 +9,11 @@ from . import net as N
 from . import sched as S
 from . import shims
 
+# The checks always run /repo's working tree.  VERIF_REPO is a development
+# switch only (sensitivity experiments against a scratch worktree holding a
+# seeded change); with it set no evidence is written and replays go to
+# $VERIF_REPLAY_DIR.
+REPO = os.environ.get("VERIF_REPO", "/repo").rstrip("/")
 _done = False
 LINE_TOOL = 4
 _line_codes = 0
@@ -17,8 +23,8 @@ def assert_repo():
     import pynetdicom
 
     f = pynetdicom.__file__
-    if not f.startswith("/repo/"):
-        raise RuntimeError("pynetdicom is not imported from /repo: %s" % f)
+    if not f.startswith(REPO + "/"):
+        raise RuntimeError("pynetdicom is not imported from %s: %s" % (REPO, f))
 
 
 def install():
